@@ -202,8 +202,16 @@ func (d *segmentationDescriptor) parseDescriptor(data []byte) error {
 		b, _ := buf.ReadByte()
 		return b
 	}
+	if buf.Len() < 4 {
+		// too short to hold the identifier
+		return gots.ErrInvalidSCTE35Length
+	}
 	if binary.BigEndian.Uint32(buf.Next(4)) != segDescID {
 		return gots.ErrSCTE35InvalidDescriptorID
+	}
+	if buf.Len() < 5 {
+		// segmentation_event_id and the cancel indicator must be present
+		return gots.ErrInvalidSCTE35Length
 	}
 	d.eventID = binary.BigEndian.Uint32(buf.Next(4))
 	d.eventCancelIndicator = readByte()&0x80 != 0
